@@ -96,15 +96,37 @@ theorem setitem_whole_ndarray [Add α] [OfNat α 0] (x : FArr α) (hx : WF x) (v
   constructor
   · intro hs
     unfold FArr.setitem?
-    simp only [Option.bind_eq_bind, hh, Option.bind_some, hp]
+    simp only [Option.bind_eq_bind, hh, Option.bind_some, hp, Key.whole, if_true]
     exact FArr.mk?_eq_some _ _ hx.1 (by rw [hs]; exact hx.2)
   · intro hs
     unfold FArr.setitem?
-    simp only [Option.bind_eq_bind, hh, Option.bind_some, hp]
+    simp only [Option.bind_eq_bind, hh, Option.bind_some, hp, Key.whole, if_true]
     unfold FArr.mk?
     rw [if_neg]
     rintro ⟨_, h⟩
     exact hs (by rw [h]; exact hx.2.symm)
+
+/-- the code as it stands sends `x[{}] = ndarray` and `x[()] = ndarray` through `set_values` as well
+(regenerated from `__setitem__`; D31 before the repair: these two broadcast) -/
+theorem source_empty_key_is_whole_array : Gen.emptyKeyIsWholeArray = true := by decide
+
+/-- **every way of addressing the whole array** (`...`, the empty dict, the empty tuple) takes an
+ndarray exactly when it has the target's shape, and stores it as given -/
+theorem setitem_whole_ndarray_any_key [Add α] [OfNat α 0] (x : FArr α) (hx : WF x) (v : ND α) (key : Key)
+    (hk : key = .ellipsis ∨ key = .dict [] ∨ key = .tuple []) :
+    (v.shape = x.values.shape → x.setitem? key (.nd v) = some ⟨x.dims, v⟩) ∧
+    (v.shape ≠ x.values.shape → x.setitem? key (.nd v) = none) := by
+  have hsame : x.setitem? key (.nd v) = x.setitem? .ellipsis (.nd v) := by
+    rcases hk with rfl | rfl | rfl
+    · rfl
+    · unfold FArr.setitem?
+      have hh : handler? x.dims (.dict []) = handler? x.dims .ellipsis := rfl
+      simp only [hh, Key.whole, source_empty_key_is_whole_array]
+    · unfold FArr.setitem?
+      have hh : handler? x.dims (.tuple []) = handler? x.dims .ellipsis := rfl
+      simp only [hh, Key.whole, source_empty_key_is_whole_array]
+  rw [hsame]
+  exact setitem_whole_ndarray x hx v
 
 /-! ## recorded finding D10: a list key places an array right-hand side by position -/
 
